@@ -21,6 +21,12 @@ consistency    : (extension, theorems C01.7 `c01_consistency` … of Props/C01.l
                  (error <= C*dt, error ratio ~2 per halving) — the derivative the theorem states is the derivative the
                  code has; for order 1 the state the real solver hands to the lottery is sent to the driver (`avg`), whose
                  closed form (= `pureAverage` of the theorem) must reproduce the real branch average.
+pauli-pair-weight : (extension, theorems C01.9 `pauli_matrix_unitary`, `pauli_pair_weight_is_norm`) the UNNORMALISED weights the real
+                 `create_probability_distribution` writes (recorded at its `np.sum(dp_m_list)`) on entangled, non-normalised
+                 2-5 site states for lists dominated by Pauli pairs (adjacent, long-range, both site orders, all nine labels):
+                 every Pauli-pair weight = dt*gamma*<psi|psi> AND = dt*gamma*|(P(x)Q) psi|^2 computed densely from the operator
+                 the process carries; every process flagged `is_pauli` carries a unitary operator; the other weights are
+                 dt*gamma*|L psi|^2.  The same state and list also go through the `lot`/`bn`/`avg` tie (model: `denseNrm`).
 """
 from __future__ import annotations
 
@@ -86,6 +92,10 @@ def gen(rng, tier):
     nc = {"quick": 120, "thorough": 1200, "search": 240}.get(tier, 120)
     for i in range(nc):
         yield {"kind": "consistency", "sub": rng.randrange(1 << 30), "solver": ["tjm1", "tjm1", "tjm2", "mcwf"][i % 4]}
+    # extension C01.9: raw weights of Pauli pairs (appended; own PRNG stream, so the inputs above are unchanged)
+    rng9 = random.Random(rng.randrange(1 << 30) ^ 0x9A01)
+    for i in range({"quick": 60, "thorough": 600, "search": 240}.get(tier, 60)):
+        yield {"kind": "pauli-pair-weight", "sub": rng9.randrange(1 << 30)}
 
 
 # ----------------------------------------------------------------------------------------------- lottery kinds
@@ -478,6 +488,91 @@ def run_consistency(inp):
     return cases
 
 
+# ----------------------------------------------------------------------------------------------- extension C01.9
+class _NpSumSpy:
+    """stands in for the name `np` inside stochastic_process.py: records the argument of `np.sum`, delegates everything"""
+
+    def __init__(self, rec):
+        self._rec = rec
+
+    def __getattr__(self, name):
+        return getattr(np, name)
+
+    def sum(self, a, *args, **kw):
+        self._rec.append([float(x) for x in a])
+        return np.sum(a, *args, **kw)
+
+
+def _dev9(val):
+    key = "pauli-weight(tol 1e-9 rel)"
+    lc.DEV[key] = max(lc.DEV.get(key, 0.0), float(val))
+
+
+def run_pauli_pair(inp):
+    rng = random.Random(inp["sub"])
+    L = rng.choice([2, 3, 3, 4, 4, 5])
+    m = rng.choice([1, 2, 3, 3, 4])
+    dicts = lc.random_process_dicts(rng, L, m, kinds=("adjp", "adjp", "lr", "lr", "lr"), zero_p=0.0, dup_p=0.05, twin_p=0.0)
+    if rng.random() < 0.6:  # company whose weight is NOT the state norm: one-site and adjacent non-Pauli processes
+        dicts += lc.random_process_dicts(rng, L, rng.choice([1, 2]), kinds=("1", "adj"), zero_p=0.0, dup_p=0.0, twin_p=0.0)
+        rng.shuffle(dicts)
+    nm = NoiseModel(dicts)
+    state, skind = lc.random_mps(rng, L, kind=rng.choice(["entangled", "entangled", "entangled", "product"]))
+    dt = rng.choice([0.01, 0.05, 0.1, 0.25, 0.5])
+    spar = lc.analog_params(L, dt)
+    how = rng.choice(["diss", "scale", "scale"])
+    if how == "diss":
+        diss_mod.apply_dissipation(state, nm, dt, spar)
+    else:
+        state.tensors[0] = state.tensors[0] * math.sqrt(rng.choice([0.9, 0.5, 0.999, 0.25, 0.07]))
+    procs = nm.processes
+    psi = lc.to_be(state.to_vec(), L)
+    n_ref = float(np.vdot(psi, psi).real)
+    rec = []
+    real_np = sp_mod.np
+    sp_mod.np = _NpSumSpy(rec)
+    try:
+        pv = sp_mod.create_probability_distribution(copy.deepcopy(state), nm, dt, spar)
+    finally:
+        sp_mod.np = real_np
+    probs = []
+    npair = 0
+    raw = rec[-1] if rec else None
+    if raw is None or len(raw) != len(procs):
+        probs.append(f"np.sum saw {None if raw is None else len(raw)} weights for {len(procs)} processes")
+    else:
+        scale = dt * max(n_ref, 1e-300)
+        for k, p in enumerate(procs):
+            g = float(p["strength"])
+            op = lc.embed_be(p, L)
+            lp = op @ psi
+            dense = dt * g * float(np.vdot(lp, lp).real)
+            _dev9(abs(raw[k] - dense) / scale)
+            if abs(raw[k] - dense) > 1e-9 * scale:
+                probs.append(f"weight {k} ({p['name']}@{p['sites']} g={g}) is {raw[k]!r}, dt*g*|L psi|^2 = {dense!r}")
+            if diss_mod.is_pauli(p):
+                uni = float(np.abs(op.conj().T @ op - np.eye(2 ** L)).max())
+                if uni > 1e-12:
+                    probs.append(f"process {k} ({p['name']}@{p['sites']}) is flagged Pauli but its operator is not unitary (|U^H U - 1| = {uni:.3g})")
+                if len(p["sites"]) == 2:
+                    npair += 1
+                    shortcut = dt * g * n_ref
+                    _dev9(abs(raw[k] - shortcut) / scale)
+                    if abs(raw[k] - shortcut) > 1e-9 * scale:
+                        probs.append(f"Pauli pair {k} ({p['name']}@{p['sites']} g={g}): weight {raw[k]!r}, dt*g*<psi|psi> = {shortcut!r}")
+        tot = sum(raw)
+        if tot > 0 and any(abs(pv[k] - raw[k] / tot) > 1e-12 for k in range(len(procs))):
+            probs.append("returned vector is not the recorded weights divided by their sum")
+    lr = sum(1 for p in procs if len(p["sites"]) == 2 and abs(p["sites"][1] - p["sites"][0]) > 1)
+    names = sorted({p["name"][-2:] for p in procs if len(p["sites"]) == 2 and diss_mod.is_pauli(p)})
+    cases = [{"req": None, "impl": None, "edge": False, "kind": "pauli-pair-weight", "nontrivial": npair >= 1 and abs(n_ref - 1) > 1e-3,
+              "sig": f"ppw:{skind}:{how}:{L}:{len(procs)}:{npair}:{lr}:{','.join(names)}",
+              "oracle": {"ok": not probs, "detail": "; ".join(probs[:4]) or f"{npair} Pauli pairs ({lr} long-range), n={n_ref:.6g}"}}]
+    # the same input through the model: `denseNrm` of the driver must reproduce the real probability vector / branches
+    cases += lc.lottery_case(state, nm, dt, spar, L, kind="pauli-pair-weight", tag=f"ppw:{skind}:{how}")
+    return cases
+
+
 def guarded(fn, inp, kind):
     """an exception of the real code on an in-domain outcome path is a failing input, not a harness crash"""
     try:
@@ -504,6 +599,8 @@ def run(inp):
         return guarded(run_solver, inp, "solver:" + str(inp.get("solver")))
     if k == "consistency":
         return guarded(run_consistency, inp, "consistency:" + str(inp.get("solver")))
+    if k == "pauli-pair-weight":
+        return run_pauli_pair(inp)
     raise ValueError(k)
 
 
